@@ -23,6 +23,7 @@ import (
 type fileRule struct {
 	Swap      map[string]string // import path -> replacement path
 	GoTasks   bool              // rewrite `go` statements into kernel tasks
+	GoInline  bool              // turn `go f(x)` into a plain call (one legal schedule; only for spawns that do not rendezvous with the parent)
 	Selects   bool              // rewrite multi-case selects
 	MapRanges []string          // range expressions (source text) that are maps whose iteration order must be canonical
 }
@@ -164,7 +165,9 @@ func rewrite(path string, rule fileRule) ([]byte, error) {
 		for i, s := range list {
 			switch st := s.(type) {
 			case *ast.GoStmt:
-				if rule.GoTasks {
+				if rule.GoInline {
+					list[i] = &ast.ExprStmt{X: st.Call}
+				} else if rule.GoTasks {
 					ns, err := rewriteGo(st)
 					if err != nil {
 						rerr = fmt.Errorf("%s: %v", fset.Position(st.Pos()), err)
